@@ -10,6 +10,11 @@ VERIF = os.path.dirname(HERE)
 sys.path.insert(0, HERE)
 sys.path.insert(0, os.path.join(VERIF, 'checks'))
 
+if len(sys.argv) > 1 and sys.argv[1].upper().startswith('X'):
+    # extensions of the specification beyond the listed properties keep their
+    # evidence apart from evidence/<property id>.json
+    os.environ.setdefault('VERIF_EVIDENCE_DIR', os.path.join(VERIF, 'extra', 'evidence'))
+
 import checklib  # noqa: E402
 import runlib  # noqa: E402
 
